@@ -50,6 +50,9 @@ fn my_task() -> usize { desync::verif::me() }
 #[cfg(desync_verif_real)]
 fn my_task() -> usize { use std::hash::{Hash, Hasher}; let mut h = std::collections::hash_map::DefaultHasher::new(); std::thread::current().id().hash(&mut h); h.finish() as usize }
 
+/// consumer probes (polls with a throw-away waker before the real read) on or off
+pub static PROBE: AtomicBool = AtomicBool::new(true);
+
 pub struct StreamCore {
     st: StdMutex<(std::collections::VecDeque<u64>, bool, Option<std::task::Waker>)>,
     pub pushed: AtomicU64, pub released: AtomicBool, pub processed: StdMutex<Vec<u64>>, pub received: StdMutex<Vec<u64>>, pub ended_seen: AtomicBool,
@@ -273,12 +276,15 @@ pub fn exec_op(ctx: &Arc<Ctx>, op: &Op, caller: usize, nested: bool, local: &mut
         }
         Op::CloseStream(k) => { let w = { let mut st = ctx.streams[*k].st.lock().unwrap(); desync::verif::log("api", "CLOSE", *k, String::new()); st.1 = true; st.2.take() }; if let Some(w) = w { w.wake(); } return; }
         Op::Consume(n) => {
-            use futures::StreamExt;
+            use futures::StreamExt; use futures::Stream;
             if let Some((k, s)) = local.out.as_mut() {
                 let mut got = 0;
                 loop {
                     if *n > 0 && got >= *n { break; }
-                    match block_on(s.next(), None).unwrap() {
+                    // every other read is preceded by a probe with a throw-away waker (select!/now_or_never style): the stream must
+                    // then wake the waker of the LATEST poll
+                    let probe = if got % 2 == 0 && PROBE.load(SeqCst) { let w = futures::task::noop_waker(); let mut cx = Context::from_waker(&w); match Pin::new(&mut *s).poll_next(&mut cx) { Poll::Ready(v) => Some(v), Poll::Pending => None } } else { None };
+                    match (match probe { Some(v) => v, None => block_on(s.next(), None).unwrap() }) {
                         Some(v) => { desync::verif::log("api", "CONSUMED", v as usize, String::new()); ctx.streams[*k].received.lock().unwrap().push(v); got += 1; }
                         None => { desync::verif::log("api", "CONSUMEDEND", *k, String::new()); ctx.streams[*k].ended_seen.store(true, SeqCst); break; }
                     }
